@@ -1,7 +1,7 @@
 SPECIFICATION Spec
 CONSTANT HNames = {"zero", "z", "xy", "gen"}
 CONSTANT KNames = {"zero", "diag", "rank1", "dense", "indefinite", "indefc", "rank2"}
-CONSTANT JumpNames = {"none", "damping", "two", "four"}
+CONSTANT JumpNames = {"none", "damping", "two", "four", "traceful"}
 CONSTANT Emit = TRUE
 INVARIANT ActsAsGksl
 INVARIANT TraceZero
